@@ -1,17 +1,45 @@
-(* C02 — statements and final theorems (assembled from Inv1..Inv4). *)
-From Coq Require Import List Arith Bool Lia.
-From SV Require Import C02.Model C02.Defs C02.Refuted.
+(* C02 — statements and final theorems (assembled from Inv1..Inv4 and Step). *)
+From Coq Require Import List Arith Bool Lia Sorted.
+From SV Require Import C02.Model C02.Defs C02.Lemmas C02.Prims C02.Inv1 C02.Inv2 C02.Inv3 C02.Inv4 C02.Step C02.Refuted.
 Import ListNotations.
 
-(* the full statements *)
-Definition logical_order_statement : Prop :=
-  forall mx sched, 1 <= mx -> sorted (logical mx (run mx sched)).
-Definition first_copies_statement : Prop :=
-  forall mx sched, 1 <= mx -> increasing (first_copies (log (run mx sched))) = true.
-Definition success_offsets_statement : Prop :=
-  forall mx sched, 1 <= mx -> succ_ordered (succ (run mx sched)) = true.
-Definition retry0_statement : Prop :=
-  forall sched, order_ok (run 0 sched) = true.
+(* ---------------------------------------------------------------- Retry.Max >= 1: all schedules *)
+Theorem logical_order mx sched : 1 <= mx -> sorted (logical mx (run mx sched)).
+Proof. intros H. destruct (inv_run mx sched H) as (_ & _ & I3 & _). now destruct I3. Qed.
+
+Theorem first_copies_ordered mx sched : 1 <= mx -> increasing (first_copies (log (run mx sched))) = true.
+Proof. intros H. destruct (inv_run mx sched H) as (_ & _ & _ & I4 & _). now destruct I4. Qed.
+
+Lemma ssorted_pair_order (l : list (nat * nat)) :
+  StronglySorted (fun a b => fst a < fst b /\ snd a < snd b) l ->
+  forall a b, In a l -> In b l -> fst a < fst b -> snd a < snd b.
+Proof.
+  induction 1 as [|x l S IH F]; intros a b Ha Hb Hlt; [destruct Ha|].
+  rewrite Forall_forall in F. destruct Ha as [<-|Ha], Hb as [<-|Hb].
+  - lia.
+  - now apply F.
+  - apply F in Ha. lia.
+  - now apply IH.
+Qed.
+
+Theorem success_offsets_ordered mx sched : 1 <= mx -> succ_ordered (succ (run mx sched)) = true.
+Proof.
+  intros H. destruct (inv_run mx sched H) as (_ & _ & _ & I4 & _). destruct I4.
+  unfold succ_ordered. apply forallb_forall. intros a Ha. apply forallb_forall. intros b Hb.
+  destruct (Nat.ltb_spec (fst a) (fst b)) as [L|L]; simpl; auto. apply Nat.ltb_lt.
+  apply (ssorted_pair_order _ i_ent_sorted); auto; unfold entries; apply in_or_app; now left.
+Qed.
+
+Theorem no_panic mx sched : 1 <= mx -> crash (run mx sched) = None.
+Proof. intros H. now destruct (inv_run mx sched H) as (_ & _ & _ & _ & C). Qed.
+
+(* the accepted messages of the current worker, in the order they will be sent, are the head of the logical list *)
+Theorem accepted_is_head mx sched : 1 <= mx -> let s := run mx sched in
+  exists R, logical mx s = map fst (acc (cur_bp s)) ++ R.
+Proof. intros H s. destruct (inv_run mx sched H) as (I1 & I2 & _). eexists. now apply logical_prefix. Qed.
+
+(* ---------------------------------------------------------------- Retry.Max = 0: the full statement is false *)
+Definition retry0_statement : Prop := forall sched, order_ok (run 0 sched) = true.
 
 Lemma retry0_statement_false : ~ retry0_statement.
 Proof.
